@@ -46,8 +46,14 @@ def coq_type(t):
         return 'oslice'
     if t == 'N':    # the value None, known statically (spec option "static_kinds")  [C14]
         return 'unit'
+    if t == 'LF':   # a 1-D float array seen as a list (only reduced / mapped by spec-declared functions)  [C14]
+        return '(list T)'
+    if isinstance(t, tuple) and t[0] == 'K':   # a string argument whose value is known statically ("static_kinds")  [C14]
+        return 'unit'
     if t == 'A2':   # a 2-D float array read by index, data(l, p)  [C09]
         return '(Z -> Z -> T)'
+    if t == 'LZ':   # a 1-D integer index array, only ever produced by a spec-declared call and passed on  [C16]
+        return '(list Z)'
     if isinstance(t, tuple) and t[0] == 'T':
         return '(' + ' * '.join(coq_type(x) for x in t[1:]) + ')'
     if isinstance(t, tuple) and t[0] == 'R':   # named record
@@ -102,6 +108,19 @@ class Fn:
                 return self.expr(e, env)[1]
             except Untranslatable:
                 return None
+        if isinstance(n, ast.Compare) and len(n.ops) == 1 and isinstance(n.ops[0], (ast.Eq, ast.NotEq)) \
+                and isinstance(n.comparators[0], ast.Constant) and isinstance(n.comparators[0].value, str):
+            # [C14] `x == "literal"` for a parameter declared None ('N') or as a known string (["K", "value"])
+            k = kind(n.left)
+            if k == 'N':
+                return isinstance(n.ops[0], ast.NotEq)
+            if isinstance(k, tuple) and k[0] == 'K':
+                return (k[1] == n.comparators[0].value) == isinstance(n.ops[0], ast.Eq)
+            return None
+        if isinstance(n, ast.Call) and isinstance(n.func, ast.Name) and n.func.id == "hasattr" and len(n.args) == 2 \
+                and isinstance(n.args[1], ast.Constant) and n.args[1].value == "compute" and self.spec.get("no_dask"):
+            # [C14] spec option "no_dask": the arrays are numpy arrays (the dask variant only adds da.compute(...))
+            return False if kind(n.args[0]) == 'LF' else None
         if isinstance(n, ast.Compare) and len(n.ops) == 1:
             op, right = n.ops[0], n.comparators[0]
             if isinstance(op, (ast.Is, ast.IsNot)) and isinstance(right, ast.Constant) and right.value is None:
@@ -152,6 +171,14 @@ class Fn:
         _fail(node, "type mismatch: have %s want %s in %s" % (t, want, ast.dump(node)[:80]))
 
     def expr(self, n, env):
+        # [C17] spec option "call_alias": a fixed call expression (compared as ast.unparse text) stands for a declared name,
+        # e.g. an array gather `a.take(idx, mode='wrap')` or a reduction `sum(alpha)` seen from one element.  Off by default.
+        if self.spec.get("call_alias") and isinstance(n, ast.Call):
+            al = self.spec["call_alias"].get(ast.unparse(n))
+            if al is not None:
+                if al not in env:
+                    _fail(n, "alias target %s unknown" % al)
+                return (env[al][0], env[al][1])
         # [C09] spec option "expr_alias": a fixed sub-expression (compared as ast.unparse text) stands for a declared name
         if self.spec.get("expr_alias") and isinstance(n, (ast.Subscript, ast.Attribute)):
             al = self.spec["expr_alias"].get(ast.unparse(n))
@@ -255,7 +282,13 @@ class Fn:
                 m = {ast.BitXor: "xorb", ast.BitAnd: "andb", ast.BitOr: "orb"}
                 if type(op) in m:
                     return ("(%s %s %s)" % (m[type(op)], a[0], b[0]), 'B')
+                if isinstance(op, ast.Mult) and self.spec.get("int_casts"):   # [C18] product of two boolean masks = and
+                    return ("(andb %s %s)" % (a[0], b[0]), 'B')
                 _fail(n, "bool binop")
+            if a[1] == 'LF' and b[1] == 'Z' and isinstance(op, ast.Mod) and self.spec.get("list_mod"):
+                # [C14] spec option "list_mod": <float array> % <int>, element-wise, by the declared function
+                self.uses_T = True
+                return ("(%s %s %s)" % (self.spec["list_mod"], a[0], b[0]), 'LF')
             if isinstance(op, ast.Pow):
                 if isinstance(n.right, ast.Constant) and n.right.value == 2:
                     if a[1] == 'Z':
@@ -273,6 +306,20 @@ class Fn:
                 if type(op) in m:
                     self.uses_T = True
                     return ("(%s OP %s %s)" % (m[type(op)], self.promote(n, a, 'F'), self.promote(n, b, 'F')), 'F')
+            # [C04] spec option "bool_arith": a numpy bool operand of + or * is the number 0/1 (bool array * float array,
+            # int count += bool array).  Off by default: no effect on other specs.
+            if self.spec.get("bool_arith") and isinstance(op, (ast.Add, ast.Mult)) and (a[1] == 'B') != (b[1] == 'B') \
+                    and (a[1] in ('Z', 'F') or b[1] in ('Z', 'F')):
+                num = a if b[1] == 'B' else b
+                bo = b if b[1] == 'B' else a
+                if num[1] == 'Z':
+                    conv = ("(if %s then 1 else 0)" % bo[0], 'Z')
+                    x, y = (conv, num) if bo is a else (num, conv)
+                    return ("(%s %s %s)" % (x[0], "+" if isinstance(op, ast.Add) else "*", y[0]), 'Z')
+                self.uses_T = True
+                conv = ("(if %s then ofZ OP 1 else ofZ OP 0)" % bo[0], 'F')
+                x, y = (conv, num) if bo is a else (num, conv)
+                return ("(%s OP %s %s)" % ("add" if isinstance(op, ast.Add) else "mul", x[0], y[0]), 'F')
             _fail(n, "binop %s on %s,%s" % (type(op).__name__, a[1], b[1]))
         if isinstance(n, ast.Compare):
             terms = []
@@ -344,6 +391,38 @@ class Fn:
                     _fail(n, "slice.indices of a non-int")
                 return ("(let s__ := indices %s %s in (sstart s__, sstop s__, (1)))" % (base[0], arg[0]),
                         ('T', 'Z', 'Z', 'Z'))
+        # [C18] spec option "int_casts": element-wise float -> fixed-width integer conversions as numpy does them,
+        #   np.floor(x).astype(np.int32) / da.floor(x).astype(np.int64) / np.round(x).astype(int) / x.astype(np.int32)
+        # -> (to_int OP bits (floorZ OP | rintZ OP | truncZ OP) x)  [the spec imports the module defining to_int / wrap_int];
+        # on an integer: astype(np.uint16) -> mod 2^16, astype(np.int32 | np.int64 | int) -> wrap_int, astype(bool) on a bool: identity.
+        # Off by default: no effect on other specs.
+        if self.spec.get("int_casts") and isinstance(n.func, ast.Attribute) and n.func.attr == "astype" and not n.keywords \
+                and len(n.args) == 1 and ast.unparse(n.args[0]) in ("int", "np.int32", "np.int64", "np.uint16", "bool"):
+            dt = ast.unparse(n.args[0])
+            bits = {"int": 64, "np.int64": 64, "np.int32": 32}.get(dt)
+            inner = n.func.value
+            rnd = None
+            if isinstance(inner, ast.Call) and not inner.keywords and len(inner.args) == 1 \
+                    and ast.unparse(inner.func) in ("np.floor", "da.floor", "np.round", "np.rint", "np.trunc"):
+                rnd = {"np.floor": "floorZ", "da.floor": "floorZ", "np.round": "rintZ", "np.rint": "rintZ",
+                       "np.trunc": "truncZ"}[ast.unparse(inner.func)]
+                base = self.expr(inner.args[0], env)
+                if base[1] != 'F':
+                    _fail(n, "rounding call on a non-float before astype")
+            else:
+                base = self.expr(inner, env)
+            if dt == "bool":
+                if base[1] == 'B' and rnd is None:
+                    return base
+                _fail(n, "astype(bool) on %s" % (base[1],))
+            if base[1] == 'F' and bits is not None:
+                self.uses_T = True
+                return ("(to_int OP %d (%s OP) %s)" % (bits, rnd or "truncZ", base[0]), 'Z')
+            if base[1] == 'Z' and rnd is None:
+                if dt == "np.uint16":
+                    return ("(%s mod 65536)" % base[0], 'Z')
+                return ("(wrap_int %d %s)" % (bits, base[0]), 'Z')
+            _fail(n, "astype(%s) on %s" % (dt, base[1]))
         # [C09] spec option "np_methods": element-wise ndarray methods  x.astype(int) / x.astype(<float dtype>) / x.clip(lo, hi)
         if self.spec.get("np_methods") and isinstance(n.func, ast.Attribute) and n.func.attr in ("astype", "clip") and not n.keywords \
                 and not (isinstance(n.func.value, ast.Name) and n.func.value.id not in env):
@@ -364,6 +443,17 @@ class Fn:
                 return ("(fmin OP (fmax OP %s %s) %s)" % (base[0], self.promote(n, lo, 'F'), self.promote(n, hi, 'F')), 'F')
             _fail(n, "method %s" % n.func.attr)
         name = self.callname(n.func)
+        if n.keywords and self.spec.get("kw_calls"):
+            # [C16] spec option "kw_calls": a call with FIXED keyword arguments is looked up in "calls" under the name
+            # `f(k1=v1,k2=v2)` (keywords sorted, values as ast.unparse text); the positional arguments are passed on.
+            # Any other keyword spelling is not in the whitelist and fails closed below.
+            if any(k.arg is None for k in n.keywords):
+                _fail(n, "**kwargs in call to %s" % name)
+            kwname = "%s(%s)" % (name, ",".join("%s=%s" % (k.arg, ast.unparse(k.value)) for k in sorted(n.keywords, key=lambda k: k.arg)))
+            if kwname not in self.calls:
+                _fail(n, "call to %s not in whitelist" % kwname)
+            name = kwname
+            n = ast.copy_location(ast.Call(func=n.func, args=n.args, keywords=[]), n)
         if n.keywords:
             _fail(n, "keyword arguments in call to %s" % name)
         if name == "slice" and len(n.args) == 3 and "slice3" in self.calls:
@@ -535,6 +625,13 @@ class Fn:
         if isinstance(s, ast.Return):
             if s.value is None:
                 _fail(s, "bare return")
+            if self.spec.get("return_var"):
+                # [C17] spec option "return_var": the per-element value of a local that the function goes on to reduce
+                # (`return (sum(alpha) - ...)`): the definition returns that local as it stands at the return.  Off by default.
+                rv = self.spec["return_var"]
+                if rv not in env:
+                    _fail(s, "return_var %s unknown" % rv)
+                return self.coerce_ret(s, (env[rv][0], env[rv][1]), rtype)
             tx = self.expr(s.value, env)
             return self.coerce_ret(s, tx, rtype)
         if isinstance(s, ast.Raise):
@@ -565,6 +662,35 @@ class Fn:
             tx = self.expr(s.value, env)
             pat, env2 = self.bind(s.targets[0], tx, env, s)
             return "let %s := %s in\n%s" % (pat, tx[0], self.block(rest, env2, rtype))
+        if isinstance(s, ast.AugAssign) and self.spec.get("np_methods") and self.static_kinds and isinstance(s.target, ast.Subscript) \
+                and isinstance(s.target.value, ast.Name) and isinstance(s.target.slice, ast.Tuple) and len(s.target.slice.elts) >= 2 \
+                and isinstance(s.target.slice.elts[0], ast.Constant) and isinstance(s.target.slice.elts[0].value, int) \
+                and all(isinstance(e, ast.Slice) and e.lower is None and e.upper is None and e.step is None for e in s.target.slice.elts[1:]):
+            # [C09] `v[k, :, :] op= e` on a local stack of planes, seen for one pixel: v[k] = v[k] op e (functional update)
+            comp = ast.Subscript(value=ast.Name(id=s.target.value.id, ctx=ast.Load()), slice=s.target.slice.elts[0], ctx=ast.Load())
+            asg = ast.Assign(targets=[ast.Subscript(value=ast.Name(id=s.target.value.id, ctx=ast.Load()), slice=s.target.slice.elts[0],
+                                                    ctx=ast.Store())], value=ast.BinOp(left=comp, op=s.op, right=s.value))
+            ast.copy_location(asg, s)
+            ast.fix_missing_locations(asg)
+            nv, txt, env2 = self.item_assign(asg, env)
+            return "let %s := %s in\n%s" % (nv, txt, self.block(rest, env2, rtype))
+        if isinstance(s, ast.AugAssign) and self.spec.get("masked_update") and isinstance(s.target, ast.Subscript) \
+                and isinstance(s.target.value, ast.Name) and s.target.value.id in env:
+            # [C17] spec option "masked_update": `x[cond] op= v` on a numpy array, seen for one element, is
+            # x := if cond then x op v else x.  Off by default.
+            name = ast.Name(id=s.target.value.id, ctx=ast.Load())
+            c = self.expr(s.target.slice, env)
+            if c[1] != 'B':
+                _fail(s, "masked update with a non-bool mask")
+            fake = ast.BinOp(left=name, op=s.op, right=s.value)
+            ast.copy_location(fake, s)
+            tx = self.expr(fake, env)
+            old = env[s.target.value.id]
+            if tx[1] != old[1]:
+                _fail(s, "masked update changes the type")
+            tgt = ast.Name(id=s.target.value.id, ctx=ast.Store())
+            pat, env2 = self.bind(tgt, tx, env, s)
+            return "let %s := (if %s then %s else %s) in\n%s" % (pat, c[0], tx[0], old[0], self.block(rest, env2, rtype))
         if isinstance(s, ast.AugAssign):
             fake = ast.BinOp(left=ast.Name(id=s.target.id, ctx=ast.Load()), op=s.op, right=s.value)
             ast.copy_location(fake, s)
@@ -576,6 +702,9 @@ class Fn:
             if sc is not None:     # [C14] decided by the declared kinds: translate the live branch only
                 return self.block(list(s.body if sc else s.orelse) + rest, env, rtype)
             c = self.expr(s.test, env)
+            if c[1] == 'F' and self.spec.get("float_truthiness"):
+                # [C03] spec option "float_truthiness" (off by default): `if x:` on a float is `x != 0` (NaN is true)
+                c = ("(negb (eqb OP %s (ofZ OP 0)))" % c[0], 'B')
             if c[1] != 'B':
                 _fail(s, "condition of type %s" % (c[1],))
             if self.returns(s.body):
@@ -584,6 +713,12 @@ class Fn:
             if s.orelse and self.returns(s.orelse):
                 return "if %s then (%s)\nelse (%s)" % (c[0], self.block(list(s.body) + rest, env, rtype),
                                                       self.block(s.orelse, env, rtype))
+            if self.spec.get("inline_continuation") and not self.no_exit(s):
+                # [C17] spec option "inline_continuation": an `if` that returns on some of its paths only (nested
+                # `if ...: return` without else) is translated with the rest of the block copied into both branches:
+                # if c then (body; rest) else (orelse; rest).  Same meaning, statements are pure lets.  Off by default.
+                return "if %s then (%s)\nelse (%s)" % (c[0], self.block(list(s.body) + rest, env, rtype),
+                                                      self.block(list(s.orelse) + rest, env, rtype))
             vs = self.live_assigned(s, env)
             if not vs:
                 if self.spec.get("ignore_logging") and self.no_exit(s):
@@ -725,10 +860,40 @@ class Fn:
             binders.append("(%s : %s)" % (p, coq_type(t)))
         for extra, t in spec.get("extra_env", {}).items():
             env[extra] = (extra, t)
+        # [C17] spec option "oracles": extra binders in front of the parameters, written as Coq types; a binder of type "T"
+        # (or "Z") is also a value name of the body (module constants, np.pi via expr_alias), function-typed ones are
+        # reached through "calls" (np.sin, np.arctan2, ...).  Off by default.
+        obinders = []
+        for oname, ct in spec.get("oracles", {}).items():
+            obinders.append("(%s : %s)" % (oname, ct))
+            if ct in ("T", "Z"):
+                env[oname] = (oname, 'F' if ct == "T" else 'Z')
+            if "T" in ct.split():
+                self.uses_T = True
+        binders = obinders + binders
+        # [C09] spec option "extra_params": locals of the function that are inputs of the translated tail (see "start_at")
+        for extra, t in spec.get("extra_params", {}).items():
+            t = _tup(t)
+            env[extra] = (extra, t)
+            if t == 'F' or (isinstance(t, tuple) and 'F' in t):
+                self.uses_T = True
+            binders.append("(%s : %s)" % (extra, coq_type(t)))
         rtype = spec.get("ret")
         if isinstance(rtype, list):
             rtype = _tup(rtype)
-        body = self.block(list(self.fdef.body), env, rtype)
+        stmts = list(self.fdef.body)
+        # [C09] spec option "start_at": translate only the tail of the body that starts at the ONE top-level statement whose source
+        # text begins with the given string (what the statements before it compute is declared in "extra_env"/"extra_binders");
+        # fail-closed.  Off by default.
+        if spec.get("start_at"):
+            ks = [k for k, st in enumerate(stmts) if ast.unparse(st).startswith(spec["start_at"])]
+            if len(ks) != 1:
+                raise Untranslatable("start_at %r matches %d statements" % (spec["start_at"], len(ks)))
+            for st in stmts[:ks[0]]:
+                if any(isinstance(nd, (ast.Return, ast.Raise)) for nd in ast.walk(st)):
+                    raise Untranslatable("return/raise before start_at")
+            stmts = stmts[ks[0]:]
+        body = self.block(stmts, env, rtype)
         rt = coq_type(rtype) if rtype else None
         if spec.get("option_result") and rt:
             rt = "option %s" % rt
@@ -902,6 +1067,486 @@ def slice_call(fdef, opt):
     return ast.fix_missing_locations(new)
 
 
+# [C08] ----- spec option "cython_loop": the body of the ONE innermost `for <row> ... for <col> ...` element loop of a Cython
+# function, as a loop-free Python function of one element.  {"vars": [row, col], "loads": [arrays read at [row, col]],
+# "stores": [arrays written at [row, col]], "counter": name, "params": [scalars of the signature used by the body]}.
+#   `name = A[row, col]` (A in loads, leading statements)  -> `name` becomes a parameter
+#   `A[row, col] = e`    (A in stores)                      -> `out_A = e`
+#   `counter += 1`                                          -> `counted = True`  (initially False)
+#   `continue` / end of body                                -> `return (out_A.., counted)`
+# Anything else that mentions the loop variables fails closed.
+def cython_loop_to_python(src, qualname, opt):
+    lines = src.split("\n")
+    heads = [k for k, ln in enumerate(lines) if re.match(r"^def\s+%s\s*\(" % re.escape(qualname), ln)]
+    if len(heads) != 1:
+        raise Untranslatable("cython_loop: def %s not found" % qualname)
+    end = heads[0] + 1
+    while end < len(lines) and (not lines[end].strip() or lines[end][0] in " \t" or lines[end].lstrip().startswith((")", "#"))):
+        end += 1
+    rv, cv = opt["vars"]
+    nests = []
+    for k in range(heads[0], end):
+        m = re.match(r"^(\s*)for\s+%s\s+in\s+range\(\w+\)\s*:\s*$" % re.escape(cv), lines[k])
+        if m:
+            j = k - 1
+            while j > heads[0] and not lines[j].strip():
+                j -= 1
+            mo = re.match(r"^(\s*)for\s+%s\s+in\s+range\(\w+\)\s*:\s*$" % re.escape(rv), lines[j])
+            if not mo or len(mo.group(1)) >= len(m.group(1)):
+                raise Untranslatable("cython_loop: the %s loop is not directly inside a %s loop" % (cv, rv))
+            nests.append((k, len(m.group(1))))
+    if len(nests) != 1:
+        raise Untranslatable("cython_loop: expected one %s/%s loop nest in %s, found %d" % (rv, cv, qualname, len(nests)))
+    k0, ind0 = nests[0]
+    body = []
+    k = k0 + 1
+    while k < end and (not lines[k].strip() or len(lines[k]) - len(lines[k].lstrip()) > ind0):
+        code = lines[k].split("#")[0].rstrip()
+        if code.strip():
+            body.append(code)
+        k += 1
+    if not body:
+        raise Untranslatable("cython_loop: empty loop body")
+    base = min(len(b) - len(b.lstrip()) for b in body)
+    idx = r"\[\s*%s\s*,\s*%s\s*\]" % (re.escape(rv), re.escape(cv))
+    outs = ["out_" + a for a in opt["stores"]]
+    ret = "return (%s)" % ", ".join(outs + ["counted"])
+    loaded, out, leading = [], [], True
+    for b in body:
+        ind, t = " " * (len(b) - len(b.lstrip()) - base + 4), b.strip()
+        m = re.match(r"^(\w+)\s*=\s*(\w+)%s$" % idx, t)
+        if m and m.group(2) in opt["loads"]:
+            if not leading or len(ind) != 4 or m.group(1) in loaded:
+                raise Untranslatable("cython_loop: element load is not a leading statement: %s" % t)
+            loaded.append(m.group(1))
+            continue
+        leading = False
+        m = re.match(r"^(\w+)%s\s*=\s*(.+)$" % idx, t)
+        if m and m.group(1) in opt["stores"]:
+            t = "out_%s = %s" % (m.group(1), m.group(2))
+        elif re.match(r"^%s\s*\+=\s*1$" % re.escape(opt["counter"]), t):
+            t = "counted = True"
+        elif t == "continue":
+            t = ret
+        if re.search(r"\b(%s|%s|%s)\b" % (re.escape(rv), re.escape(cv), re.escape(opt["counter"])), t) or "[" in t:
+            raise Untranslatable("cython_loop: statement outside the element-wise subset: %s" % b.strip())
+        out.append(ind + t)
+    if len(loaded) != len(opt["loads"]):
+        raise Untranslatable("cython_loop: expected loads from %s" % opt["loads"])
+    text = "def %s(%s):\n    counted = False\n%s\n    %s\n" % (qualname, ", ".join(loaded + list(opt["params"])), "\n".join(out), ret)
+    try:
+        ast.parse(text)
+    except SyntaxError as e:
+        raise Untranslatable("cython_loop: reduced body is not Python: %s" % e)
+    return text
+
+
+# [C05] ----- spec option "slice_assign": {"name": v}: the function is read as `def f(<declared params>): return <expr>` where
+# <expr> is the right-hand side of the ONE plain assignment `v = <expr>` anywhere in the function body; the names the
+# expression reads are the declared "params" (locals or arguments of the host function, seen for one array element when
+# combined with "elementwise").  Robust against edits elsewhere in the host function; fails closed when `v` is assigned by
+# zero or several plain assignments (augmented assignments `v &= ...` are other statements and do not count).
+def slice_assign(fdef, opt, params):
+    pool = fdef.body if opt.get("top_level") else ast.walk(fdef)     # "top_level": only statements of the body itself
+    hits = [st for st in pool if isinstance(st, ast.Assign) and len(st.targets) == 1
+            and isinstance(st.targets[0], ast.Name) and st.targets[0].id == opt["name"]]
+    if len(hits) != 1:
+        raise Untranslatable("slice_assign: expected exactly one plain assignment of %s, found %d" % (opt["name"], len(hits)))
+    st = hits[0]
+    value = st.value
+    if opt.get("rename_free"):
+        # "rename_free": [p1, p2, ...]: the free variables of the expression (names read, other than the base of an
+        # attribute access such as `np.` / `kdtree.`), in order of first occurrence, are bound positionally to these
+        # declared parameters -- renaming a local of the host function then leaves the generated definition unchanged
+        class _Free(ast.NodeVisitor):
+            def __init__(self):
+                self.names = []
+
+            def visit_Attribute(self, n):
+                if not isinstance(n.value, ast.Name):
+                    self.visit(n.value)
+
+            def visit_Name(self, n):
+                if isinstance(n.ctx, ast.Load) and n.id not in self.names:
+                    self.names.append(n.id)
+        fv = _Free()
+        fv.visit(value)
+        want = list(opt["rename_free"])
+        if len(fv.names) != len(want):
+            raise Untranslatable("slice_assign: %s reads %s, expected %d free variables" % (opt["name"], fv.names, len(want)))
+        ren = dict(zip(fv.names, want))
+        if sorted(ren.values()) != sorted(set(ren.values())):
+            raise Untranslatable("slice_assign: duplicate parameter in rename_free")
+
+        class _Ren(ast.NodeTransformer):
+            def visit_Attribute(self, n):
+                if not isinstance(n.value, ast.Name):
+                    n.value = self.visit(n.value)
+                return n
+
+            def visit_Name(self, n):
+                return ast.copy_location(ast.Name(id=ren[n.id], ctx=n.ctx), n) if isinstance(n.ctx, ast.Load) and n.id in ren else n
+        import copy
+        value = _Ren().visit(copy.deepcopy(value))
+    ret = ast.Return(value=value)
+    args = ast.arguments(posonlyargs=[], args=[ast.arg(arg=p) for p in params], kwonlyargs=[], kw_defaults=[], defaults=[])
+    new = ast.FunctionDef(name=fdef.name, args=args, body=[ret], decorator_list=[], returns=None, type_comment=None)
+    ast.copy_location(new, st)
+    ast.copy_location(ret, st)
+    new.end_lineno = st.end_lineno
+    return ast.fix_missing_locations(new)
+
+
+# [C04] ----- spec option "extract": translate a loop-free fragment of a function that as a whole is a loop over numpy arrays,
+# read element-wise (one target location, one column, one neighbour slot):
+#   {"kind": "for_body", "nth": k}            the body of the k-th `for` statement of the function, in source order
+#   {"kind": "block", "first": "<text>", "n": N}   N consecutive statements starting at the one whose ast.unparse is <text>
+#   {"kind": "lambda_return"}                 `def f(a): return lambda r: E`  ->  f(a, r) = E
+#   "params": [names]      parameters of the fragment (free names and accumulators), in this order
+#   "returns": [names]     names returned after the fragment (for_body / block)
+#   "assume": {"<test text>": bool}   an `if` with exactly this test keeps only the live branch (specialisation, e.g. to ndim)
+#   "identity_calls": [callee]        calls that are the identity element-wise (np.expand_dims(x, axis=1)): replaced by x
+#   "masks": ["<mask text>"] or {"<subscript text>": "<mask expression>"}
+#                                     boolean-mask stores `X[M] = E` / `X[M] op= E` with M one of these texts become
+#                                     X = np.where(M, E', X) / X = np.where(M, X op E', X), E' = E with Y[M] read as Y;
+#   "masked_loads": true              plain `v = Y[M]` is read as v = Y (v is only used under the same mask afterwards)
+# Everything else goes through the unchanged fail-closed translator.  Off by default: no effect on other specs.
+def extract_fragment(fdef, opt):
+    kind = opt["kind"]
+    if kind == "lambda_return":
+        if len(fdef.body) < 1 or not isinstance(fdef.body[-1], ast.Return) or not isinstance(fdef.body[-1].value, ast.Lambda):
+            raise Untranslatable("extract: %s does not end in `return lambda`" % fdef.name)
+        rest = [st for st in fdef.body[:-1] if not (isinstance(st, ast.Expr) and isinstance(st.value, ast.Constant))]
+        if rest:
+            raise Untranslatable("extract: statements before `return lambda` in %s" % fdef.name)
+        lam = fdef.body[-1].value
+        args = ast.arguments(posonlyargs=[], args=list(fdef.args.args) + list(lam.args.args), vararg=None, kwonlyargs=[],
+                             kw_defaults=[], kwarg=None, defaults=[])
+        new = ast.FunctionDef(name=fdef.name, args=args, body=[ast.Return(value=lam.body)], decorator_list=[], returns=None,
+                              type_comment=None)
+        ast.copy_location(new, fdef)
+        new.end_lineno = fdef.end_lineno
+        return ast.fix_missing_locations(new)
+    if kind == "for_body":
+        loops = [st for st in ast.walk(fdef) if isinstance(st, ast.For)]
+        loops.sort(key=lambda st: (st.lineno, st.col_offset))
+        if not 0 <= opt["nth"] < len(loops):
+            raise Untranslatable("extract: %s has %d for statements" % (fdef.name, len(loops)))
+        loop = loops[opt["nth"]]
+        if loop.orelse:
+            raise Untranslatable("extract: for ... else")
+        stmts, anchor = list(loop.body), loop
+    elif kind == "block":
+        found = None
+        for parent in ast.walk(fdef):
+            for field in ("body", "orelse"):
+                seq = getattr(parent, field, None)
+                if isinstance(seq, list):
+                    for i, st in enumerate(seq):
+                        if isinstance(st, ast.stmt) and ast.unparse(st) == opt["first"]:
+                            if found is not None:
+                                raise Untranslatable("extract: statement %r occurs twice" % opt["first"])
+                            found = (seq, i)
+        if found is None:
+            raise Untranslatable("extract: statement %r not found in %s" % (opt["first"], fdef.name))
+        seq, i = found
+        if i + opt["n"] > len(seq):
+            raise Untranslatable("extract: block runs past the end of its suite")
+        stmts, anchor = seq[i:i + opt["n"]], seq[i]
+    else:
+        raise Untranslatable("extract: unknown kind %r" % kind)
+    assume = opt.get("assume", {})
+    masks = opt.get("masks", {})        # slice text -> mask expression text (a list means: the slice itself is the mask)
+    if isinstance(masks, list):
+        masks = {m: m for m in masks}
+    ident = set(opt.get("identity_calls", []))
+
+    class Rw(ast.NodeTransformer):
+        def visit_Call(self, n):
+            self.generic_visit(n)
+            if ast.unparse(n.func) in ident:
+                if not n.args:
+                    raise Untranslatable("extract: identity call without argument")
+                return n.args[0]
+            return n
+
+    def unmask(e, mtext):
+        class U(ast.NodeTransformer):
+            def visit_Subscript(self, n):
+                self.generic_visit(n)
+                if ast.unparse(n.slice) == mtext and isinstance(n.ctx, ast.Load):
+                    return n.value
+                return n
+        return U().visit(e)
+
+    def where(m, a, b):
+        return ast.Call(func=ast.Attribute(value=ast.Name(id="np", ctx=ast.Load()), attr="where", ctx=ast.Load()),
+                        args=[m, a, b], keywords=[])
+
+    def rewrite(sts):
+        out = []
+        for st in sts:
+            if isinstance(st, ast.If) and ast.unparse(st.test) in assume:
+                out.extend(rewrite(st.body if assume[ast.unparse(st.test)] else st.orelse))
+                continue
+            if isinstance(st, ast.If):
+                st = ast.If(test=st.test, body=rewrite(st.body), orelse=rewrite(st.orelse))
+            tgt = st.targets[0] if isinstance(st, ast.Assign) and len(st.targets) == 1 else \
+                (st.target if isinstance(st, ast.AugAssign) else None)
+            if isinstance(tgt, ast.Subscript) and isinstance(tgt.value, ast.Name) and ast.unparse(tgt.slice) in masks:
+                mtext = ast.unparse(tgt.slice)
+                x = ast.Name(id=tgt.value.id, ctx=ast.Load())
+                val = unmask(st.value, mtext)
+                if isinstance(st, ast.AugAssign):
+                    val = ast.BinOp(left=ast.Name(id=tgt.value.id, ctx=ast.Load()), op=st.op, right=val)
+                mexpr = ast.parse(masks[mtext], mode="eval").body
+                st = ast.Assign(targets=[ast.Name(id=tgt.value.id, ctx=ast.Store())], value=where(mexpr, val, x))
+            elif isinstance(st, ast.Assign) and opt.get("masked_loads"):
+                # `v = Y[M]` with M a declared mask: element-wise the value of Y (only used under the same mask afterwards)
+                val = st.value
+                for mtext in masks:
+                    val = unmask(val, mtext)
+                st = ast.Assign(targets=st.targets, value=val)
+            out.append(Rw().visit(st))
+        return out
+    body = rewrite(stmts)
+    ret = ast.Return(value=ast.Tuple(elts=[ast.Name(id=r, ctx=ast.Load()) for r in opt["returns"]], ctx=ast.Load())
+                     if len(opt["returns"]) != 1 else ast.Name(id=opt["returns"][0], ctx=ast.Load()))
+    args = ast.arguments(posonlyargs=[], args=[ast.arg(arg=a) for a in opt["params"]], vararg=None, kwonlyargs=[],
+                         kw_defaults=[], kwarg=None, defaults=[])
+    new = ast.FunctionDef(name=fdef.name, args=args, body=body + [ret], decorator_list=[], returns=None, type_comment=None)
+    ast.copy_location(new, anchor)
+    new.end_lineno = getattr(stmts[-1], "end_lineno", anchor.lineno)
+    return ast.fix_missing_locations(new)
+
+
+# [C18] ----- element-wise numpy recipes embedded in functions whose other statements are plumbing (Proj construction, dask
+# map_blocks, masked-array wrapping).  Both transforms are fail-closed AST rewrites; off by default.
+class _MaskedAssign(ast.NodeTransformer):
+    """spec option "masked_assign":  X[M] = V  (X a plain name)  ->  X = np.where(M, V, X)   (element-wise meaning)."""
+
+    def visit_Assign(self, node):
+        self.generic_visit(node)
+        if len(node.targets) == 1 and isinstance(node.targets[0], ast.Subscript) and isinstance(node.targets[0].value, ast.Name) \
+                and not isinstance(node.targets[0].slice, (ast.Tuple, ast.Slice, ast.Constant)):
+            t = node.targets[0]
+            name = t.value.id
+            call = ast.Call(func=ast.Attribute(value=ast.Name(id="np", ctx=ast.Load()), attr="where", ctx=ast.Load()),
+                            args=[t.slice, node.value, ast.Name(id=name, ctx=ast.Load())], keywords=[])
+            new = ast.Assign(targets=[ast.Name(id=name, ctx=ast.Store())], value=call)
+            return ast.fix_missing_locations(ast.copy_location(new, node))
+        return node
+
+
+def slice_vars(fdef, opt):
+    """spec option "slice_vars": {"inputs": [names], "outputs": [names], "self_attrs": [attrs]}.
+    The function of the `inputs` (values produced by an oracle call: the first top-level statement binding them is cut)
+    computing the `outputs`, made of the top-level assignments the outputs depend on, in source order.
+    `self.<attr> = V` for attr in self_attrs counts as an assignment to the name self__<attr>.
+    Fails if an output is never assigned or if a needed name is (re)bound inside a nested block."""
+    inputs, outputs = list(opt["inputs"]), list(opt["outputs"])
+    self_attrs = set(opt.get("self_attrs", []))
+
+    def targets(st):
+        if not isinstance(st, ast.Assign) or len(st.targets) != 1:
+            return None
+        t = st.targets[0]
+        if isinstance(t, ast.Name):
+            return [t.id]
+        if isinstance(t, ast.Tuple) and all(isinstance(e, ast.Name) for e in t.elts):
+            return [e.id for e in t.elts]
+        if isinstance(t, ast.Attribute) and isinstance(t.value, ast.Name) and t.value.id == "self" and t.attr in self_attrs:
+            return ["self__" + t.attr]
+        return None
+
+    def loads(e):
+        return {n.id for n in ast.walk(e) if isinstance(n, ast.Name) and isinstance(n.ctx, ast.Load)}
+    body = list(fdef.body)
+    cut = None
+    first = {}
+    for k, st in enumerate(body):
+        ts = targets(st)
+        if ts and set(ts) & set(inputs):
+            if not set(ts) <= set(inputs):
+                raise Untranslatable("slice_vars: the statement binding the inputs also binds %s" % sorted(set(ts) - set(inputs)))
+            for t in ts:
+                first.setdefault(t, k)
+        if len(first) == len(set(inputs)):
+            break
+    if inputs and len(first) == len(set(inputs)):
+        cut = max(first.values())     # everything up to the last first-binding of an input is the oracle side
+    if cut is None and not inputs:
+        cut = -1            # no oracle call to cut: the outputs are functions of the parameters
+    if cut is None:
+        raise Untranslatable("slice_vars: inputs %s are not assigned at top level" % inputs)
+    tail = body[cut + 1:]
+    nested = set()
+    for st in tail:
+        if targets(st) is None:
+            for n in ast.walk(st):
+                if isinstance(n, ast.Name) and isinstance(n.ctx, ast.Store):    # `del x` frees memory, it binds nothing
+                    nested.add(n.id)
+    needed, keep = set(outputs), []
+    for st in reversed(tail):
+        ts = targets(st)
+        if ts and set(ts) & needed:
+            keep.append(st)
+            needed |= loads(st.value)
+    keep.reverse()
+    bad = (needed & nested) - set(inputs)
+    if bad:
+        raise Untranslatable("slice_vars: %s bound inside a nested block" % sorted(bad))
+    bound = set(inputs)
+    new_body = []
+    for st in keep:
+        ts = targets(st)
+        if isinstance(st.targets[0], ast.Attribute):
+            st = ast.copy_location(ast.Assign(targets=[ast.Name(id=ts[0], ctx=ast.Store())], value=st.value), st)
+        new_body.append(st)
+        bound |= set(ts)
+    missing = [o for o in outputs if o not in bound]
+    if missing:
+        raise Untranslatable("slice_vars: outputs %s are never assigned" % missing)
+    ret = ast.Return(value=ast.Tuple(elts=[ast.Name(id=o, ctx=ast.Load()) for o in outputs], ctx=ast.Load()))
+    args = ast.arguments(posonlyargs=[], args=list(fdef.args.args) + [ast.arg(arg=i) for i in inputs], vararg=None,
+                         kwonlyargs=[], kw_defaults=[], kwarg=None, defaults=[])
+    new = ast.FunctionDef(name=fdef.name, args=args, body=new_body + [ret], decorator_list=[], returns=None, type_comment=None)
+    ast.copy_location(new, fdef)
+    ast.copy_location(ret, body[-1])
+    new.end_lineno = fdef.end_lineno
+    return ast.fix_missing_locations(new)
+
+
+# [C02] ----- spec option "slice_mask": {"inputs": [type, ...]}.  The function is reduced to the ONE validity-mask expression
+# it computes element-wise: top-level single-name assignments whose right-hand side is built only from comparisons, `& | ~`,
+# names and numeric constants are "mask assignments"; names bound exactly once (in the whole function) to a mask assignment
+# are inlined; the root is the unique mask assignment that (after inlining) contains a comparison and is not inlined into
+# another one.  The result is `def f(<free names>): return <root expression>` (names compared with something first, then
+# plain mask names, each group in order of first use); the spec declares the types of the free names positionally.  Robust against renaming locals, splitting the mask into named parts and reordering
+# independent statements; fails closed otherwise.
+def slice_mask(fdef, spec):
+    opt = spec["slice_mask"]
+
+    def is_mask(e):
+        if isinstance(e, ast.Compare):
+            return all(is_operand(x) for x in [e.left] + e.comparators)
+        if isinstance(e, ast.BinOp) and isinstance(e.op, (ast.BitAnd, ast.BitOr)):
+            return is_mask(e.left) and is_mask(e.right)
+        if isinstance(e, ast.UnaryOp) and isinstance(e.op, ast.Invert):
+            return is_mask(e.operand)
+        return isinstance(e, ast.Name)
+
+    def is_operand(e):
+        if isinstance(e, ast.UnaryOp) and isinstance(e.op, (ast.USub, ast.UAdd)):
+            return is_operand(e.operand)
+        return isinstance(e, ast.Name) or (isinstance(e, ast.Constant) and isinstance(e.value, (int, float))
+                                           and not isinstance(e.value, bool))
+
+    bound = {}
+    for n in ast.walk(fdef):
+        if isinstance(n, ast.Name) and isinstance(n.ctx, (ast.Store, ast.Del)):
+            bound[n.id] = bound.get(n.id, 0) + 1
+    for a in fdef.args.args + fdef.args.kwonlyargs:
+        bound[a.arg] = bound.get(a.arg, 0) + 1
+    cands = [st for st in fdef.body if isinstance(st, ast.Assign) and len(st.targets) == 1
+             and isinstance(st.targets[0], ast.Name) and is_mask(st.value) and not isinstance(st.value, ast.Name)]
+    once = {st.targets[0].id: st for st in cands if bound.get(st.targets[0].id, 0) == 1}
+
+    def inline(e, depth=0):
+        if depth > 20:
+            raise Untranslatable("slice_mask: cyclic mask definitions")
+        if isinstance(e, ast.Name) and e.id in once:
+            return inline(once[e.id].value, depth + 1)
+        if isinstance(e, ast.BinOp):
+            return ast.BinOp(left=inline(e.left, depth), op=e.op, right=inline(e.right, depth))
+        if isinstance(e, ast.UnaryOp) and isinstance(e.op, ast.Invert):
+            return ast.UnaryOp(op=e.op, operand=inline(e.operand, depth))
+        return e
+
+    def names(e):
+        return [n.id for n in ast.walk(e) if isinstance(n, ast.Name)]
+    used = set()
+    for st in cands:
+        used |= {x for x in names(st.value) if x in once and x != st.targets[0].id}
+    roots = []
+    for st in cands:
+        if st.targets[0].id in used and st.targets[0].id in once:
+            continue
+        e = inline(st.value)
+        if any(isinstance(n, ast.Compare) for n in ast.walk(e)):
+            roots.append((st, e))
+    if len(roots) != 1:
+        raise Untranslatable("slice_mask: expected exactly one validity-mask expression, found %d" % len(roots))
+    st, e = roots[0]
+    # free names: first the operands of comparisons (element values), then the remaining ones (masks), each group in
+    # order of first use -- so that `a & mask` / `mask & a` give the same parameter list
+    in_cmp = {n.id for c in ast.walk(e) if isinstance(c, ast.Compare) for n in ast.walk(c) if isinstance(n, ast.Name)}
+    free, rest = [], []
+    for n in sorted((n for n in ast.walk(e) if isinstance(n, ast.Name)), key=lambda n: (n.lineno, n.col_offset)):
+        grp = free if n.id in in_cmp else rest
+        if n.id not in grp:
+            grp.append(n.id)
+    free += rest
+    if len(free) != len(opt["inputs"]):
+        raise Untranslatable("slice_mask: mask reads %s, spec declares %d inputs" % (free, len(opt["inputs"])))
+    args = ast.arguments(posonlyargs=[], args=[ast.arg(arg=x) for x in free], vararg=None, kwonlyargs=[], kw_defaults=[],
+                         kwarg=None, defaults=[])
+    ret = ast.Return(value=e)
+    new = ast.FunctionDef(name=fdef.name, args=args, body=[ret], decorator_list=[], returns=None, type_comment=None)
+    ast.copy_location(new, st)
+    ast.copy_location(ret, st)
+    new.end_lineno = st.end_lineno
+    spec2 = dict(spec)
+    spec2["params"] = dict(zip(free, opt["inputs"]))
+    return ast.fix_missing_locations(new), spec2
+
+
+
+# [C14] ----- spec option "slice_test": {"func": "<callee as written>", "cut": [names]}.  The function is reduced to the
+# test of the top-level `if` statement that guards its ONE call of <callee>, preceded by the backward slice of the
+# top-level single-name assignments the test depends on (as in slice_call).  Names in "cut" are inputs of the generated
+# definition (declared in "extra_env"/"extra_binders"): the values they hold when the test is evaluated.
+def slice_test(fdef, opt):
+    calls = [n for n in ast.walk(fdef) if isinstance(n, ast.Call) and ast.unparse(n.func) == opt["func"]]
+    if len(calls) != 1:
+        raise Untranslatable("slice_test: expected exactly one call of %s, found %d" % (opt["func"], len(calls)))
+    guards = [st for st in fdef.body if isinstance(st, ast.If) and any(n is calls[0] for b in st.body for n in ast.walk(b))]
+    if len(guards) != 1:
+        raise Untranslatable("slice_test: the call of %s is not guarded by one top-level if" % opt["func"])
+    guard = guards[0]
+    cut = set(opt.get("cut", []))
+    params = {a.arg for a in fdef.args.args}
+    top, bound = {}, {}
+    for st in fdef.body:
+        if isinstance(st, ast.Assign) and len(st.targets) == 1 and isinstance(st.targets[0], ast.Name) and st.end_lineno < guard.lineno:
+            top.setdefault(st.targets[0].id, []).append(st)
+    for n in ast.walk(fdef):
+        if isinstance(n, ast.Name) and isinstance(n.ctx, (ast.Store, ast.Del)):
+            bound[n.id] = bound.get(n.id, 0) + 1
+
+    def loads(e):
+        return {n.id for n in ast.walk(e) if isinstance(n, ast.Name) and isinstance(n.ctx, ast.Load)}
+    needed, keep, todo = set(), [], loads(guard.test)
+    while todo:
+        name = todo.pop()
+        if name in needed or name in params or name in cut:
+            continue
+        needed.add(name)
+        if name not in top:
+            continue
+        if bound.get(name, 0) != 1 or len(top[name]) != 1:
+            raise Untranslatable("slice_test: %s is bound more than once" % name)
+        keep.append(top[name][0])
+        todo |= loads(top[name][0].value)
+    keep.sort(key=lambda st: st.lineno)
+    ret = ast.Return(value=guard.test)
+    new = ast.FunctionDef(name=fdef.name, args=fdef.args, body=keep + [ret], decorator_list=[], returns=None, type_comment=None)
+    ast.copy_location(new, fdef)
+    ast.copy_location(ret, guard)
+    new.end_lineno = fdef.end_lineno
+    return ast.fix_missing_locations(new)
+
+
 def translate_module(repo, modname, mod):
     """mod: {"functions": [spec...], "generic": bool}. Returns Coq text."""
     out = ["(* GENERATED by tools/py2coq.py from the current /repo working tree -- do not edit. *)",
@@ -914,12 +1559,26 @@ def translate_module(repo, modname, mod):
     for spec in mod["functions"]:
         path = repo.rstrip("/") + "/" + spec["source"]
         src = open(path).read()
+        if spec.get("cython_loop"):  # [C08] off by default: no effect on other specs
+            src = cython_loop_to_python(src, spec["qualname"], spec["cython_loop"])
         if spec.get("cython"):      # [C09] off by default: no effect on other specs
             src = cython_to_python(src, spec["qualname"])
         tree = ast.parse(src)
         fdef = find_function(tree, spec["qualname"])
         if spec.get("slice_call"):  # [C08] off by default: no effect on other specs
             fdef = slice_call(fdef, spec["slice_call"])
+        if spec.get("slice_test"):  # [C14] off by default: no effect on other specs
+            fdef = slice_test(fdef, spec["slice_test"])
+        if spec.get("extract"):     # [C04] off by default: no effect on other specs
+            fdef = extract_fragment(fdef, spec["extract"])
+        if spec.get("slice_assign"):  # [C05] off by default: no effect on other specs
+            fdef = slice_assign(fdef, spec["slice_assign"], list(spec["params"]))
+        if spec.get("masked_assign"):   # [C18] off by default: no effect on other specs
+            fdef = _MaskedAssign().visit(fdef)
+        if spec.get("slice_vars"):      # [C18] off by default: no effect on other specs
+            fdef = slice_vars(fdef, spec["slice_vars"])
+        if spec.get("slice_mask"):  # [C02] off by default: no effect on other specs
+            fdef, spec = slice_mask(fdef, spec)
         fn = Fn(spec, fdef)
         try:
             text = fn.translate()
